@@ -13,8 +13,12 @@ package shell
 //   RIc rejected interactive request: command not whitelisted
 //   RIa rejected interactive request: metacharacter argument
 //   RS  rejected streaming request: wrong password
+//   XS  valid streaming request whose process cannot be started: the command is whitelisted but
+//       not installed on the host (passes every check, takes a slot, Session.Start fails)
+//   XW  valid streaming request whose process cannot be started: non-existent work_dir
+//   XI  valid interactive request whose process cannot be started (command not installed)
 //   CL  close of the oldest running session (HandleStreamClose)
-// (quick: L = 3 with the third event from {VS, VI, RIp, RIc, CL}; thorough: L = 4, full alphabet)
+// (quick: L = 3 with the third event from {VS, VI, RIp, RIc, CL, XS}; thorough: L = 4, full alphabet)
 // is driven through the real code; accepted requests start real `sleep 3000` processes, which are
 // killed by CL or by Handler.Close at the end of the history (the harness waits only on the
 // processes' done channels, with a safety timeout that is a harness error, never a verdict).
@@ -28,6 +32,8 @@ package shell
 
 import (
 	"fmt"
+	"os"
+	"os/exec"
 	"runtime"
 	"strings"
 	"sync"
@@ -37,6 +43,13 @@ import (
 	"github.com/postalsys/muti-metroo/internal/identity"
 	"github.com/postalsys/muti-metroo/internal/logging"
 	"github.com/postalsys/muti-metroo/internal/vmc"
+)
+
+// A whitelisted command name that is not installed and a working directory that does not exist:
+// requests that pass every check (and take a slot) but whose process cannot be started.
+const (
+	c25NoSuchCommand = "c25-verif-command-not-installed"
+	c25NoSuchDir     = "c25-verif-no-such-directory"
 )
 
 type c25HandlerCase struct {
@@ -74,11 +87,19 @@ type c25Live struct {
 	kind string
 }
 
+// c25Done returns the done channel of the process the handler started for the stream, nil when no
+// process was started (a Session object that was built but whose Start failed is not a process).
 func c25Done(ss *ShellStream) <-chan struct{} {
 	ss.mu.Lock()
 	defer ss.mu.Unlock()
-	if ss.Session != nil {
-		return ss.Session.Done()
+	if s := ss.Session; s != nil {
+		s.mu.Lock()
+		started := s.started
+		s.mu.Unlock()
+		if !started {
+			return nil
+		}
+		return s.Done()
 	}
 	if p, ok := ss.PTYSession.(*PTYSession); ok && p != nil {
 		return p.done
@@ -124,7 +145,7 @@ func c25Exited(ch <-chan struct{}) bool {
 // c25HandlerRun drives one history; it reports violations through violate and returns a short
 // outcome string plus (granted, refusedAtLimit) for the non-triviality rule.
 func c25HandlerRun(r *vmc.Result, c c25HandlerCase, violate func(fp, what string)) (outcome string, granted, limited int) {
-	ex := NewExecutor(Config{Enabled: true, Whitelist: []string{"sleep"}, PasswordHash: c25Hash(), MaxSessions: c.Max})
+	ex := NewExecutor(Config{Enabled: true, Whitelist: []string{"sleep", c25NoSuchCommand}, PasswordHash: c25Hash(), MaxSessions: c.Max})
 	wr := &c25Writer{closed: map[uint64]bool{}}
 	h := NewHandler(ex, wr, logging.NopLogger())
 	var peer identity.AgentID
@@ -138,7 +159,7 @@ func c25HandlerRun(r *vmc.Result, c c25HandlerCase, violate func(fp, what string
 	request := func(kind string) {
 		nextID++
 		id := nextID
-		interactive := kind == "VI" || strings.HasPrefix(kind, "RI")
+		interactive := kind == "VI" || kind == "XI" || strings.HasPrefix(kind, "RI")
 		meta := &ShellMeta{Command: "sleep", Args: []string{"3000"}, Password: c25Password}
 		if interactive {
 			meta.TTY = &TTYSettings{Rows: 24, Cols: 80}
@@ -151,6 +172,11 @@ func c25HandlerRun(r *vmc.Result, c c25HandlerCase, violate func(fp, what string
 			meta.Args = nil
 		case "RIa":
 			meta.Args = []string{"1;id"}
+		case "XS", "XI":
+			meta.Command = c25NoSuchCommand // whitelisted, not installed: every check passes, the start fails
+			meta.Args = nil
+		case "XW":
+			meta.WorkDir = c25NoSuchDir // `sleep 3000` in a directory that does not exist: the start fails
 		}
 		priv, pub, err := crypto.GenerateEphemeralKeypair()
 		if err != nil {
@@ -196,7 +222,9 @@ func c25HandlerRun(r *vmc.Result, c c25HandlerCase, violate func(fp, what string
 			all = append(all, done)
 			granted++
 			out = append(out, kind+"+")
-			if kind != "VS" && kind != "VI" {
+			if strings.HasPrefix(kind, "X") {
+				r.HarnessError("C25 handler: %s: request %s (command not installed / no such directory) started a process", c, kind)
+			} else if kind != "VS" && kind != "VI" {
 				violate("C25/handler/forbidden-request-started/"+kind, fmt.Sprintf("%s: request %s (must be refused) started a process", c, kind))
 			}
 		} else {
@@ -268,7 +296,7 @@ func c25HandlerRun(r *vmc.Result, c c25HandlerCase, violate func(fp, what string
 
 // c25Handler is the handler-level half of TestVerif_C25 (called from harness_test.go).
 func c25Handler(r *vmc.Result) {
-	r.Rule += " || handler histories: every sequence of up to L events over {valid stream request, valid interactive request, interactive request rejected for password / whitelist / metacharacter, stream request rejected for password, close of the oldest running session} x MaxSessions in {1,2} through the real Handler (real `sleep 3000` processes); non-trivial = histories in which a request was granted and a later valid one was refused at the limit (distinct by history)"
+	r.Rule += " || handler histories: every sequence of up to L events over {valid stream request, valid interactive request, interactive request rejected for password / whitelist / metacharacter, stream request rejected for password, valid stream / interactive request whose process cannot be started (whitelisted command not installed, non-existent work_dir), close of the oldest running session} x MaxSessions in {1,2} through the real Handler (real `sleep 3000` processes); non-trivial = histories in which a request was granted and a later valid one was refused at the limit, or in which a start failed beside a granted session (distinct by history)"
 	r.Assume("handler half: requests are delivered one after the other (HandleStreamOpen/HandleStreamData/HandleStreamClose are synchronous up to process start); accepted requests run real `sleep 3000` processes that are killed by the close event or Handler.Close; concurrency of the slot counter itself is the schedule half")
 	var rp c25HandlerCase
 	if r.ReplayInto(&rp) {
@@ -279,7 +307,15 @@ func c25Handler(r *vmc.Result) {
 		r.Add("evaluations", 1)
 		return
 	}
-	alphabet := []string{"VS", "VI", "RIp", "RIc", "RIa", "RS", "CL"}
+	if p, err := exec.LookPath(c25NoSuchCommand); err == nil {
+		r.HarnessError("C25 handler: the command %q exists on this host (%s): the failed-start events need a name that is not installed", c25NoSuchCommand, p)
+		return
+	}
+	if _, err := os.Stat(c25NoSuchDir); err == nil {
+		r.HarnessError("C25 handler: the directory %q exists: the failed-start events need a path that does not exist", c25NoSuchDir)
+		return
+	}
+	alphabet := []string{"VS", "VI", "RIp", "RIc", "RIa", "RS", "XS", "XW", "XI", "CL"}
 	maxLen := vmc.Pick(r, 3, 4)
 	r.Info["handler_history_length"] = maxLen
 	var hist [][]string
@@ -292,8 +328,8 @@ func c25Handler(r *vmc.Result) {
 			return
 		}
 		for _, a := range alphabet {
-			if !r.Thorough() && len(cur) == 2 && (a == "RIa" || a == "RS") {
-				continue // quick tier: the third event comes from {VS, VI, RIp, RIc, CL}
+			if !r.Thorough() && len(cur) == 2 && (a == "RIa" || a == "RS" || a == "XW" || a == "XI") {
+				continue // quick tier: the third event comes from {VS, VI, RIp, RIc, XS, CL}
 			}
 			gen(append(cur, a))
 		}
@@ -334,6 +370,11 @@ func c25Handler(r *vmc.Result) {
 			r.Outcome("handler|" + outcome)
 			if granted > 0 && limited > 0 {
 				r.Nontrivial("handler|" + c.String())
+			}
+			if granted > 0 && strings.Contains(outcome, "X") {
+				// a request that passed every check failed to start while another session was or became active
+				r.Nontrivial("handler-failed-start|" + c.String())
+				r.Add("handler_histories_with_failed_start_beside_a_session", 1)
 			}
 			if len(hs) == 3 && max == 1 && granted > 0 && limited > 0 {
 				r.Sample(map[string]any{"handler_history": c.String(), "outcomes": outcome})
